@@ -357,3 +357,128 @@ def composite_federation_contract(method):
                  assumptions=['callee contracts: FilterSet.add (proved: view after == view before | argument), deduplicate (proved: same set of (id, version) identities), the members\' own '
                               f'{method} (an arbitrary answer per member); a FilterSet is abstracted to the set of its filters, answers to sets of (id, version) identities'])
     return c
+
+
+# ------------------------------------------------------------------ DataSource.related_to: on top of relationships() and query(), both under contract
+RELS = z3.Const('relationships.result', E.SetS)                   # what self.relationships(...) returns (identities of relationship objects)
+EXTRA = z3.Const('filters.view', E.SetS)                          # the caller's additional filters (identities)
+SATALL = z3.Function('satisfies_all', E.SetS, E.S, z3.BoolSort())  # object u satisfies every filter of the set (the meaning of a conjunction of filters, C12)
+_viewctr = [0]
+
+
+def related_to_contract(variant):
+    from vf.pyvc.lib import rebinding, mk_map, real_sig, bind_actuals
+    obj = mk_map('obj', {'id': 'str'}, open_keys=True) if variant == 'object' else Str(z3.String('obj'))
+    oid = (lambda a: a['obj'].x['value']('id').t) if variant == 'object' else (lambda a: a['obj'].t)
+
+    def set_as_seq(x, it, p, site):
+        """iterating over a set: some enumeration of exactly its members"""
+        _viewctr[0] += 1
+        el = z3.Function(f'enum!{_viewctr[0]}', z3.IntSort(), E.S); n = z3.Int(f'n_enum!{_viewctr[0]}')
+        s = z3.String(f's!en{_viewctr[0]}'); j = z3.Int(f'j!en{_viewctr[0]}')
+        q = p.fork(n >= 0, z3.ForAll([s], it.t[s] == z3.Exists([j], z3.And(0 <= j, j < n, el(j) == s))))
+        yield q, Seq(lambda i: Val('relobj' if it.x and it.x.get('of') == 'rels' else 'str', el(i)), n, of_set=it.t)
+
+    def h_relationships(x, e, p, site):
+        sig = real_sig(x.src_root, 'stix2/datastore/__init__.py', 'DataSource.relationships')
+        for p1, vs in x.ev_seq(list(e.args) + [k.value for k in e.keywords], p):
+            if isinstance(vs, Exc): yield p1, vs; continue
+            bound, errors = bind_actuals(sig, e, vs, skip_self=True)
+            ok = not errors
+            for formal in ('obj', 'relationship_type', 'source_only', 'target_only'):
+                ok = ok and bound.get(formal) is x.params.get(formal)
+            x.oblige('call(self.relationships): the caller\'s obj, relationship_type, source_only, target_only are forwarded to the formals of the same name (real signature)', p1.pc, z3.BoolVal(bool(ok)), p1.exact, 'call-requires')
+            yield p1.fork(), Exc('ValueError', site)                # (both flags set / no id: the callee's refusal passes through)
+            yield p1, Val('set', RELS, x={'of': 'rels'})
+
+    def attr_ref(name):
+        def h(x, o, p, site): yield p, Str(PROP[name](o.t))
+        return h
+
+    def m_update(x, recv, args, p):
+        a = args[0]
+        if a.sort != 'tuple' or any(i.sort != 'str' for i in a.x): raise Unsupported('ids.update argument')
+        u = z3.FreshConst(E.S, 'u')
+        return SetV(z3.Lambda([u], z3.Or(recv.t[u], *[u == i.t for i in a.x])))
+
+    def m_discard(x, recv, args, p):
+        u = z3.FreshConst(E.S, 'u')
+        return SetV(z3.Lambda([u], z3.And(recv.t[u], u != args[0].t)))
+
+    def h_set(x, e, p, site):
+        if e.args: raise Unsupported(site + ' set(...) with arguments')
+        yield p, SetV(E.EMPTY)
+
+    def h_filterset(x, e, p, site):
+        if len(e.args) != 1 or ast.unparse(e.args[0]) != 'filters': raise Unsupported(site + ' FilterSet(...) of something else than the caller\'s filters')
+        yield p, Val('fset', EXTRA)           # callee contract of FilterSet(filters) / FilterSet.add: the view is exactly the filters handed in
+
+    def comp_all(x, e, p):
+        yield p, Val('fseq', p.env['filter_list'].t)
+
+    def fseq_add(x, a, b, p, site):
+        if b.sort != 'litlist' or len(b.x) != 1 or b.x[0].sort != 'filter' or b.x[0].x[0] != 'id': raise Unsupported(site + ' query filters shape')
+        yield p, Val('qfilters', x=(a.t, b.x[0].x[1]))
+
+    def h_filter(x, e, p, site):
+        for p1, vs in x.ev_seq(list(e.args), p):
+            if isinstance(vs, Exc): yield p1, vs; continue
+            pr, op, v = vs
+            if not (z3.is_string_value(pr.t) and pr.t.as_string() == 'id' and z3.is_string_value(op.t) and op.t.as_string() == '=' and v.sort == 'str'): raise Unsupported(site + ' filter')
+            yield p1, Val('filter', x=('id', v.t))
+
+    def h_query(x, e, p, site):
+        for p1, vs in x.ev_seq(list(e.args), p):
+            if isinstance(vs, Exc): yield p1, vs; continue
+            if vs[0].sort != 'qfilters': raise Unsupported(site + ' query argument')
+            fl, idv = vs[0].x; u = z3.FreshConst(E.S, 'u')
+            yield p1, SetV(z3.Lambda([u], z3.And(STORED[u], SATALL(fl, u), PROP_ID(u) == idv)))
+
+    def m_extend(x, recv, args, p):
+        if args[0].sort != 'set': raise Unsupported('extend with ' + args[0].sort)
+        base = E.EMPTY if recv.sort == 'litlist' and not recv.x else recv.t
+        if base is None: raise Unsupported('extend of a non-empty literal list')
+        u = z3.FreshConst(E.S, 'u')
+        return SetV(z3.Lambda([u], z3.Or(base[u], args[0].t[u])))
+
+    def inv_ids(x, env, i, it):
+        s = z3.String('s!ids'); j = z3.Int('j!ids')
+        rr = z3.String('r!ids')
+        indexed = z3.ForAll([s], env['ids'].t[s] == z3.Exists([j], z3.And(0 <= j, j < i, z3.Or(PROP['source_ref'](it.t[0](j).t) == s, PROP['target_ref'](it.t[0](j).t) == s))))
+        # at the end of the enumeration the index-free form holds (what the rest of the function needs; proved here, where only one enumeration is in play)
+        closed = z3.ForAll([s], env['ids'].t[s] == z3.Exists([rr], z3.And(it.x['of_set'][rr], z3.Or(PROP['source_ref'](rr) == s, PROP['target_ref'](rr) == s))))
+        return z3.And(indexed, z3.Implies(i == it.t[1], closed))
+
+    def inv_res(x, env, i, it):
+        s = z3.String('s!res'); j = z3.Int('j!res')
+        r = env['results']; view = E.EMPTY if r.sort == 'litlist' and not r.x else r.t
+        indexed = z3.ForAll([s], view[s] == z3.And(STORED[s], SATALL(EXTRA, s), z3.Exists([j], z3.And(0 <= j, j < i, it.t[0](j).t == PROP_ID(s)))))
+        closed = z3.ForAll([s], view[s] == z3.And(STORED[s], SATALL(EXTRA, s), it.x['of_set'][PROP_ID(s)]))
+        return z3.And(indexed, z3.Implies(i == it.t[1], closed))
+
+    def subscript_id(x, e, p): yield p, Exc('TypeError', 'obj[id]')
+
+    def ens(a, r):
+        s = z3.String('s!ens'); rr = z3.String('r!ens')
+        view = E.EMPTY if r.sort == 'litlist' and not r.x else (r.t if r.sort == 'set' else None)
+        if view is None: return z3.BoolVal(False)
+        linked = z3.Exists([rr], z3.And(RELS[rr], z3.Or(PROP['source_ref'](rr) == PROP_ID(s), PROP['target_ref'](rr) == PROP_ID(s))))
+        return z3.ForAll([s], view[s] == z3.And(STORED[s], SATALL(EXTRA, s), PROP_ID(s) != oid(a), linked))
+    return Contract('stix2/datastore/__init__.py::DataSource.related_to', props=['C18'], note=f'obj given as {variant}',
+                    params={'self': 'opaque', 'obj': obj, 'relationship_type': 'opt:str', 'source_only': 'bool', 'target_only': 'bool', 'filters': 'opaque'},
+                    requires=[('the object has an id', lambda a: a['obj'].x['present']('id'))] if variant == 'object' else [],
+                    ensures=[('exactly the stored objects, other than the object itself, that satisfy the extra filters and are the other end of one of its relationships', ens)],
+                    raises={'ValueError': None},
+                    handlers={'self.relationships': h_relationships, 'set': h_set, 'FilterSet': h_filterset, 'Filter': h_filter, 'self.query': h_query},
+                    comprehensions={'[f for f in filter_list]': comp_all},
+                    registry_ext={'iterables': {'set': set_as_seq}, 'attrs': {('relobj', 'source_ref'): attr_ref('source_ref'), ('relobj', 'target_ref'): attr_ref('target_ref')},
+                                  'methods': {('.update', 'set'): rebinding(m_update), ('.discard', 'set'): rebinding(m_discard), ('.extend', 'litlist'): rebinding(m_extend), ('.extend', 'set'): rebinding(m_extend)},
+                                  'binops': {('fseq', 'Add', 'litlist'): fseq_add}},
+                    loops={0: {'kind': 'inv', 'inv': inv_ids}, 1: {'kind': 'inv', 'inv': inv_res}},
+                    havoc={'ids': lambda v: SetV(z3.FreshConst(E.SetS, 'ids')), 'results': lambda v: SetV(z3.FreshConst(E.SetS, 'results'))},
+                    expr_hooks=({"obj['id']": subscript_id} if variant == 'id' else {}),
+                    assumptions=['callee contracts of related_to: self.relationships (proved separately: exactly the scan), self.query (C12: exactly the stored objects satisfying every filter), '
+                                 'FilterSet(filters) (view == the filters handed in); objects abstracted to identities, every stored (id, version) being one identity'])
+
+
+PROP_ID = z3.Function('prop.id', E.S, E.S)
